@@ -767,3 +767,51 @@ def snapshot_to_tree(snap, ids):
         else:
             tree[p] = ('d',)
     return tree
+
+
+# ------------------------------------------------------------------------------------------------ extraction cross-check
+def coq_bytes(b):
+    return '[' + ';'.join(str(x) for x in b) + ']'
+
+
+def coq_tree(tree):
+    """the generator tree as a Gallina `node` term"""
+    kids = {}
+    for p in tree:
+        par = p.rsplit(b'/', 1)[0] or b'/'
+        kids.setdefault(par, []).append(p)
+
+    def term(p):
+        n = tree[p]
+        if n[0] == 'f':
+            return 'File %d 0' % n[1]
+        if n[0] == 'l':
+            return 'Link ' + coq_bytes(n[1])
+        return 'Dir [' + '; '.join('(%s, %s)' % (coq_bytes(c.rsplit(b'/', 1)[1]), term(c)) for c in kids.get(p, [])) + ']'
+    return 'Dir [' + '; '.join('(%s, %s)' % (coq_bytes(c.rsplit(b'/', 1)[1]), term(c)) for c in kids.get(b'/', [])) + ']'
+
+
+def coq_exts(es):
+    return 'None' if es is None else 'Some [' + '; '.join(coq_bytes(e) for e in es) + ']'
+
+
+def coq_eval_listings(cases, workdir):
+    """cases: [(tree, exts, paths)] -> [set of normalised listed paths] computed by vm_compute INSIDE Coq (no extraction)"""
+    import re
+    src = ['From Zinoma.Model Require Import Bytes Ext Cfg FsTree.']
+    for i, (tree, exts, paths) in enumerate(cases):
+        src.append('Definition t%d : node := %s.' % (i, coq_tree(tree)))
+        src.append('Eval vm_compute in (%d%%nat, listing_set t%d {| fr_paths := [%s]; fr_exts := %s |}).'
+                   % (i, i, '; '.join(coq_bytes(p) for p in paths), coq_exts(exts)))
+    f = os.path.join(workdir, 'Cases.v')
+    with open(f, 'w') as fh:
+        fh.write('\n'.join(src) + '\n')
+    rc, out, err = vf.sh(['coqc', '-noglob', '-Q', vf.COQ, 'Zinoma', f], timeout=900, cwd=workdir)
+    if rc != 0:
+        raise RuntimeError('coqc on the cross-check file failed: ' + (out + err)[-1500:])
+    res = {}
+    for m in re.finditer(r'=\s*\((\d+)%nat,\s*(.*?)\)\s*:\s*nat \* list', out, re.S):
+        body = m.group(2).replace('\n', ' ')
+        lst = eval(body.replace(';', ','))
+        res[int(m.group(1))] = set(norm(bytes(x)) for x in lst)
+    return [res.get(i) for i in range(len(cases))]
